@@ -509,7 +509,9 @@ def key_list_texts():
 
 def doc_texts():
     out = []
-    docs = ["`a\nb`", "`a\r\nb`", "`\n`", "`a\n    b\n  c`", "`a\n\nb`", "`x\n`", "`\nx`", "`tab\n\tx`"]
+    docs = ["`a\nb`", "`a\r\nb`", "`\n`", "`a\n    b\n  c`", "`a\n\nb`", "`x\n`", "`\nx`", "`tab\n\tx`",
+            # characters special to printf-style formatting, in every declaration kind
+            "`100% of %s %d %v`", "`%`", "`%%d%!`"]
     for d in docs:
         out.append("packet A {\n    u8 x %s,\n}" % d)
         out.append("packet A {\n    B b %s,\n    B %s,\n    repeat B bs %s,\n}" % (d, d, d))
@@ -517,7 +519,7 @@ def doc_texts():
         out.append("packet A {\n    Inner {\n        u8 x %s,\n        Deep {\n            u8 y %s,\n        },\n    },\n}" % (d, d))
         out.append("MetaData M {\n    u8 x %s,\n    T t %s,\n}" % (d, d))
         out.append("root packet A {\n    u8 x %s,\n}" % d)
-    strs = ['"x\\\ny"', '"x\\\r\ny"', '"\\\n"']
+    strs = ['"x\\\ny"', '"x\\\r\ny"', '"\\\n"', '"%d%s"']
     for s in strs:
         out.append("options {\n    a = %s;\n    b = %s\n}" % (s, s))
         out.append("packet A {\n    u32 crc @calculatedFrom(%s),\n    @calculatedFrom(%s) u8 y,\n}" % (s, s))
